@@ -215,6 +215,11 @@ class Gen:
             return "(pair? %s)" % self.list_(env, d - 1)
         if k < 0.8:
             return "(eqv? %s %s)" % (self.int_(env, d - 1), self.int_(env, d - 1))
+        if k < 0.9 and self.derived:
+            # a one-armed conditional standing directly in test position: when its own test fails its value is unspecified
+            # but it is NOT #f, so it counts as true
+            inner, v = self.bool_(env, d - 1), self.tick(self.int_(env, d - 1))
+            return r.choice(["(when %s %s)", "(unless %s %s)", "(if %s %s)", "(cond (%s %s))"]) % (inner, v)
         return "(if %s #f #t)" % self.bool_(env, d - 1)
 
     def list_(self, env, d):
@@ -353,12 +358,12 @@ class Gen:
                     forms.append("(define %s (lambda (n acc) (define (mk) (lambda () (* n 10))) (if (= n 0) acc %s)))" % (nm, selfcall("(- n 1)", "(cons (mk) acc)")))
                 arg = "" if style != 1 else " 100"
                 forms.append("(map (lambda (t) (t%s)) (%s %d '()))" % (arg, nm, r.randrange(1, 5)))
-            elif k < 0.75:
+            elif k < 0.78:
                 # procedures taking ALL their arguments as a rest list (no fixed parameter): re-entered non-tail while the list
                 # is still needed, closed over by closures of two different calls, and with the rest parameter named like a
                 # parameter of the enclosing procedure. In the `fixed` spelling the same procedures take one list argument.
                 nm = self.fresh("v")
-                style = r.randrange(3)
+                style = r.randrange(4)
                 args = [self.int_(env, 1) for _ in range(r.randrange(1, 5))]
                 args2 = [self.int_(env, 1) for _ in range(r.randrange(0, 3))]
                 pick_rest = r.random() < 0.5
@@ -381,11 +386,21 @@ class Gen:
                     forms.append("(define %s %s)" % (a, call(nm, args)))
                     forms.append("(define %s %s)" % (b, call(nm, args2)))
                     forms.append("(list (%s) (%s) (%s))" % (a, b, a))
+                elif style == 3:
+                    # a fixed parameter and a rest parameter, called with several SURPLUS arguments, directly or through apply
+                    # with the cut between leading arguments and final list anywhere
+                    more = [self.int_(env, 1) for _ in range(r.randrange(2, 5))]
+                    cut = r.choice([len(more), len(more), len(more) - 1, r.randrange(0, len(more) + 1)])
+                    forms.append("(define (%s a . xs) (cons a xs))" % nm if sugar else "(define %s (lambda (a . xs) (cons a xs)))" % nm)
+                    if self.spelling.get("call") == "apply" or (self.spelling.get("call") is None and pick_rest):
+                        forms.append("(apply %s %s (list %s))" % (nm, " ".join(more[:cut]), " ".join(more[cut:])))
+                    else:
+                        forms.append("(%s %s)" % (nm, " ".join(more)))
                 else:
                     inner = "((lambda xs (car xs)) 1 2)" if rest else "((lambda (xs) (car xs)) (list 1 2))"
                     forms.append("(define (%s xs) (+ %s (car xs)))" % (nm, inner))
                     forms.append("(%s (list %s))" % (nm, " ".join(args)))
-            elif k < 0.78:
+            elif k < 0.81:
                 forms.append(self.list_(env, self.max_depth - 1))
             else:
                 forms.append(self.int_(env, self.max_depth))
@@ -491,7 +506,7 @@ def inject_fault(rng, gen, forms):
         fault = type_fault(rng)
     else:
         fault = rng.choice(FAULTS[kind])
-    ctx = rng.choice(["direct", "tail", "apply", "library", "operand", "nested-tail"])
+    ctx = rng.choice(["direct", "tail", "apply", "library", "operand", "nested-tail", "body-non-last"])
     if ctx == "direct":
         form = fault
     elif ctx == "tail":
@@ -500,6 +515,10 @@ def inject_fault(rng, gen, forms):
         form = "((lambda (t) (if t %s 0)) #t)" % fault
     elif ctx == "apply":
         form = "(apply (lambda (t) %s) (list 1))" % fault
+    elif ctx == "body-non-last":
+        # not the last expression of a body: evaluated for effect, and still evaluated
+        form = rng.choice(["((lambda () %s 1))", "(let () %s 2)", "(begin %s 3)", "((lambda (t) 0 %s t) 4)", "(let ((t 1)) %s t)",
+                           "(when #t %s 5)", "(cond (#t %s 6))"]) % fault
     elif ctx == "library":
         form = "(map (lambda (t) %s) '(1 2))" % fault
     else:
